@@ -176,7 +176,11 @@ type Endpoint struct {
 	Emitted      int
 	CloseInvoked bool
 	Closed       bool
-	Accepted     bool
+	// DrainFast: the liveness oracles (C02 after the heal, C03 after the resumption)
+	// bound the LIBRARY's time to deliver; from that instant the application reads
+	// without pauses into a large buffer, so that its own pace is not in the bound.
+	DrainFast bool
+	Accepted  bool
 
 	// StaleFECRisk: this session lives on an address pair that hosted another
 	// conversation before (reconnect); FECRecoveredAtStart is the library's
